@@ -73,8 +73,19 @@ fn opt_op(ctx: &mut Ctx, name: &str, got: Result<Option<Vec<u8>>, crate::monitor
 fn one_step(ctx: &mut Ctx, rng: &mut Rng, pool: &[Live], shared: &mut (Vec<u8>, Vec<u64>)) -> (String, StepOut) {
     let x = rng.pick(pool);
     let y = rng.pick(pool);
-    let (a, b) = (&x.bytes, &y.bytes);
     let (ta, tb) = (&x.tree, &y.tree);
+    // one step in five takes an operand as JSON text, written with every kind of white space the
+    // parser skips (blank, tab, CR, LF, form feed and their escaped spellings)
+    let st = crate::refjson::Style { ws: 2, esc: 1, numvar: true };
+    let text_a: Option<Vec<u8>> = if ta.all_finite() && ta.nodes() < 200 && rng.chance(1, 5) { Some(crate::refjson::to_text(ta, &st, rng, false)) } else { None };
+    let text_b: Option<Vec<u8>> = if tb.all_finite() && tb.nodes() < 200 && rng.chance(1, 5) { Some(crate::refjson::to_text(tb, &st, rng, false)) } else { None };
+    let jsonb_a = &x.bytes;
+    let jsonb_ta = &x.tree;
+    let (a, b) = (text_a.as_ref().unwrap_or(&x.bytes), text_b.as_ref().unwrap_or(&y.bytes));
+    // (a text operand denotes what the text parser reads: non-negative integers unsigned)
+    let (norm_a, norm_b);
+    let ta = if text_a.is_some() { norm_a = ta.text_norm(); &norm_a } else { ta };
+    let tb = if text_b.is_some() { norm_b = tb.text_norm(); &norm_b } else { tb };
     let name_arg: String = match ta {
         Tree::Obj(v) if !v.is_empty() && rng.chance(3, 4) => v[rng.below(v.len())].0.clone(),
         Tree::Arr(v) if !v.is_empty() && rng.chance(1, 2) => match rng.pick(v) {
@@ -247,16 +258,16 @@ fn one_step(ctx: &mut Ctx, rng: &mut Rng, pool: &[Live], shared: &mut (Vec<u8>, 
             // path selection in one of the four modes
             let mode = rng.below(4);
             opname = ["select(All)", "select(First)", "select(Array)", "select(Mixed)"][mode];
-            let pg = PathGen::new(ta);
+            let pg = PathGen::new(jsonb_ta);
             let cfg = PathCfg { max_steps: 3, filters: true, big_indices: false };
             let p = loop {
-                let p = pg.guided_path(rng, &cfg, ta);
+                let p = pg.guided_path(rng, &cfg, jsonb_ta);
                 if matches!(p, refpath::JPath::Steps(_)) {
                     break p;
                 }
             };
             let text = refpath::render(&p, &refpath::PLAIN, rng);
-            let info = || format!("{} path={:?} on {}", opname, text, ta.show());
+            let info = || format!("{} path={:?} on {}", opname, text, jsonb_ta.show());
             // results are appended to buffers that still hold the results of earlier steps of
             // this chain (what a caller collecting rows does); the new items are what lies behind
             // the old end
@@ -265,7 +276,7 @@ fn one_step(ctx: &mut Ctx, rng: &mut Rng, pool: &[Live], shared: &mut (Vec<u8>, 
                 shared.1.clear();
             }
             let (d0, o0) = (shared.0.len(), shared.1.len());
-            let sel = match select_into(text.as_bytes(), a, mode, &mut shared.0, &mut shared.1) {
+            let sel = match select_into(text.as_bytes(), jsonb_a, mode, &mut shared.0, &mut shared.1) {
                 Sel::Ok(_) => {
                     if shared.0.len() < d0 || shared.1.len() < o0 || shared.1[o0..].iter().any(|x| (*x as usize) < d0) {
                         ctx.violation(&format!("{}/shared-buffer-not-appended", opname), || format!("data {} -> {} bytes, offsets {} -> {} entries ; {}", d0, shared.0.len(), o0, shared.1.len(), info()));
@@ -281,7 +292,7 @@ fn one_step(ctx: &mut Ctx, rng: &mut Rng, pool: &[Live], shared: &mut (Vec<u8>, 
                     other
                 }
             };
-            match (sel, refpath::eval(&p, ta)) {
+            match (sel, refpath::eval(&p, jsonb_ta)) {
                 (Sel::Panic(pn), _) => {
                     ctx.panic_violation(opname, &pn, &info);
                     StepOut::Nothing
